@@ -1,12 +1,13 @@
 (* Tables/Extract.v — extraction of the executable table models for the correspondence runner.
    ExtrOcamlBasic only: bool, option, unit, list, prod, sumbool, sumor -> OCaml natives; N/positive/nat stay Coq datatypes. *)
 From Coq Require Import Extraction ExtrOcamlBasic.
-From Tables Require Import ModelAssoc ModelTree ModelFib ModelRib.
+From Tables Require Import ModelAssoc ModelTree ModelFib ModelRib ModelFace.
 Extraction Language OCaml.
 Extraction "tables_model.ml"
   tree_init tree_step tree_find_nh tree_find_strat list_fib list_strat tree_minimal_b
   ht_init ht_step ht_find_nh ht_find_strat ht_minimal_b
   spec_init spec_step spec_find_nh spec_find_strat spec_list_fib spec_list_strat
   rib_init rib_step list_rib rib_minimal_b rspec_step rget fib_want want_lookup want_listing
+  ft_step ft_get face_round_ok
   name_eqb
   N.add N.mul N.of_nat N.to_nat N.eqb N.ltb N.leb N.div N.modulo N.compare.
